@@ -206,8 +206,12 @@ def setArgs (k v mode : String) (ttl : Int) (hasExat : Bool) (exat : Int) (get k
       (if mode != "" then [U mode.toUpper] else []) ++ (if get then [U "GET"] else []))
   else .nothing
 
-/-- as the code is: no PERSIST for a zero expiration -/
+/-- a zero expiration sends PERSIST (after the `fix:` commit), a negative one nothing extra -/
 def getEx (k : String) (e : Int) : Out :=
+  .argv ([U "GETEX", S k] ++ (if 0 < e then ttlToks U e else if e == 0 then [U "PERSIST"] else []))
+
+/-- the adapter before the `fix:` commit: no PERSIST for a zero expiration -/
+def getExOld (k : String) (e : Int) : Out :=
   .argv ([U "GETEX", S k] ++ (if 0 < e then ttlToks U e else []))
 
 def expire (k : String) (d : Int) (mode : String) : Out :=
@@ -236,8 +240,12 @@ def scanTail (mat : String) (count : Int) : List Tok :=
   (if mat != "" then [U "MATCH", S mat] else []) ++ (if 0 < count then [U "COUNT", N count] else [])
 
 def scan (cursor : Int) (mat : String) (count : Int) : Out := .argv ([U "SCAN", N cursor] ++ scanTail mat count)
-/-- as the code is: TYPE is appended even when keyType is empty -/
+/-- TYPE only for a non-empty keyType (after the `fix:` commit) -/
 def scanType (cursor : Int) (mat : String) (count : Int) (ty : String) : Out :=
+  .argv ([U "SCAN", N cursor] ++ scanTail mat count ++ (if ty != "" then [U "TYPE", S ty] else []))
+
+/-- the adapter before the `fix:` commit: TYPE appended even when keyType is empty -/
+def scanTypeOld (cursor : Int) (mat : String) (count : Int) (ty : String) : Out :=
   .argv ([U "SCAN", N cursor] ++ scanTail mat count ++ [U "TYPE", S ty])
 def keyScan (name k : String) (cursor : Int) (mat : String) (count : Int) : Out :=
   .argv ([U name, S k, N cursor] ++ scanTail mat count)
